@@ -95,8 +95,9 @@ type outInfo struct {
 	Seed   int64  `json:"seed"`
 	Len    int    `json:"len"`
 	// generated documents only
-	Variant  string `json:"variant,omitempty"`
-	InputHex string `json:"input_hex,omitempty"`
+	Variant  string   `json:"variant,omitempty"`
+	Expect   []string `json:"expect_pages,omitempty"` // decoded page contents the output must still have
+	InputHex string   `json:"input_hex,omitempty"`
 }
 
 // evaluate runs O on one output and records the K cases. ctxFrees/ctxSize: from the pdfcpu context when
@@ -137,6 +138,10 @@ func evaluate(info outInfo, out []byte, eol string, oracle bool, ctxFrees []free
 					cl = "inuse-generation:stale-ref-older-generation" // writeNullObject header generation vs UndeleteObject generation
 				case f.class == "size-too-large" && opt && strings.Contains(info.Variant, "gen-stale-"):
 					cl = "size-too-large:optimize-null-object-unwritten" // the null object inserted by fixIndirectObject is never written
+				case f.class == "size-too-large" && strings.HasPrefix(info.Variant, "damaged-free-list"):
+					// inputs in xref-stream form: the source's own xref stream object is neither written nor freed,
+					// the root cause already listed as size-too-large:table / :stream
+					cl = f.class + ":" + kind
 				default:
 					cl = f.class + ":" + info.Variant
 				}
@@ -145,6 +150,27 @@ func evaluate(info outInfo, out []byte, eol string, oracle bool, ctxFrees []free
 				cl = "xref-stream-width:stream" // one root cause whatever the document
 			}
 			r.OracleFail(cl, info, f.detail)
+		}
+	}
+	if oracle && info.Expect != nil && ck.sec != nil && ck.scan != nil && !info.Enc {
+		got, err := ck.pageContents()
+		switch {
+		case err != nil:
+			r.OracleFail("page-tree-broken:"+info.Variant, info, err.Error())
+		case len(got) != len(info.Expect):
+			r.OracleFail("page-count-changed:"+info.Variant, info, fmt.Sprintf("%d pages, expected %d", len(got), len(info.Expect)))
+		default:
+			same := true
+			for i := range got {
+				if strings.TrimSpace(got[i]) != strings.TrimSpace(info.Expect[i]) {
+					same = false
+					r.OracleFail("page-content-changed:"+info.Variant, info, fmt.Sprintf("page %d content %q, expected %q", i+1, got[i], info.Expect[i]))
+					break
+				}
+			}
+			if same {
+				r.OracleOK()
+			}
 		}
 	}
 	// what the extracted Coq checker must say about the same bytes (first rejecting stage)
@@ -929,6 +955,275 @@ func sparse() {
 	}
 }
 
+// ---------------------------------------------------------------- damaged free lists
+
+// rawDamaged: two pages (objects 5/7 and 8/9), catalog 1, page tree 2, info 13; free entries 3, 4, 6, 10, 11
+// chained 0 -> 3 -> 4 -> 6 -> 10 -> 11 -> 0 unless `links` overrides an entry's next-free field; object 12 is
+// missing (no entry), /Size 14. asStream: the cross-reference is an uncompressed xref stream (object 14).
+func rawDamaged(links map[int]int, asStream bool) ([]byte, []string) {
+	contents := []string{"BT (page one) Tj ET", "BT (page two) Tj ET"}
+	stream := func(s string) string { return fmt.Sprintf("<</Length %d>>\nstream\n%s\nendstream", len(s), s) }
+	bodies := map[int]string{
+		1:  "<</Type/Catalog/Pages 2 0 R>>",
+		2:  "<</Type/Pages/Count 2/Kids[5 0 R 8 0 R]>>",
+		5:  "<</Type/Page/Parent 2 0 R/MediaBox[0 0 200 200]/Contents 7 0 R>>",
+		7:  stream(contents[0]),
+		8:  "<</Type/Page/Parent 2 0 R/MediaBox[0 0 200 200]/Contents 9 0 R>>",
+		9:  stream(contents[1]),
+		13: "<</Producer(C18)>>",
+	}
+	next := map[int]int{0: 3, 3: 4, 4: 6, 6: 10, 10: 11, 11: 0}
+	for k, v := range links {
+		next[k] = v
+	}
+	var b bytes.Buffer
+	b.WriteString("%PDF-1.7\n%\xe2\xe3\xcf\xd3\n")
+	offs := map[int]int{}
+	for _, nr := range []int{1, 2, 5, 7, 8, 9, 13} {
+		offs[nr] = b.Len()
+		fmt.Fprintf(&b, "%d 0 obj\n%s\nendobj\n", nr, bodies[nr])
+	}
+	x := b.Len()
+	if !asStream {
+		b.WriteString("xref\n0 12\n")
+		for nr := 0; nr < 12; nr++ {
+			if nx, free := next[nr]; free {
+				g := 1
+				if nr == 0 {
+					g = 65535
+				}
+				fmt.Fprintf(&b, "%010d %05d f \n", nx, g)
+			} else {
+				fmt.Fprintf(&b, "%010d 00000 n \n", offs[nr])
+			}
+		}
+		fmt.Fprintf(&b, "13 1\n%010d 00000 n \n", offs[13])
+		fmt.Fprintf(&b, "trailer\n<</Size 14/Root 1 0 R/Info 13 0 R>>\nstartxref\n%d\n%%%%EOF\n", x)
+		return b.Bytes(), contents
+	}
+	var rows []byte
+	row := func(t, a, g int) { rows = append(rows, byte(t), byte(a>>8), byte(a), byte(g>>8), byte(g)) }
+	for nr := 0; nr < 12; nr++ {
+		if nx, free := next[nr]; free {
+			g := 1
+			if nr == 0 {
+				g = 65535
+			}
+			row(0, nx, g)
+		} else {
+			row(1, offs[nr], 0)
+		}
+	}
+	row(1, offs[13], 0)
+	row(1, x, 0)
+	fmt.Fprintf(&b, "14 0 obj\n<</Type/XRef/Size 15/Root 1 0 R/Info 13 0 R/W[1 2 2]/Index[0 12 13 2]/Length %d>>\nstream\n", len(rows))
+	b.Write(rows)
+	fmt.Fprintf(&b, "\nendstream\nendobj\nstartxref\n%d\n%%%%EOF\n", x)
+	return b.Bytes(), contents
+}
+
+// damaged link targets: an in-use object, the missing object 12, the entry itself, an earlier entry of the
+// chain (cycle), beyond /Size
+func damageTarget(entry, kind int) int {
+	chain := []int{0, 3, 4, 6, 10, 11}
+	switch kind {
+	case 0:
+		return []int{5, 7, 8, 9, 1, 2}[r.Rand.Intn(6)]
+	case 1:
+		return 12
+	case 2:
+		if entry == 0 {
+			return 5
+		}
+		return entry
+	case 3:
+		for i, c := range chain {
+			if c == entry && i >= 2 {
+				return chain[1+r.Rand.Intn(i-1)]
+			}
+		}
+		return 7
+	default:
+		return 40 + r.Rand.Intn(100)
+	}
+}
+
+func damagedFreeLists() {
+	rd := func(b []byte) io.ReadSeeker { return bytes.NewReader(b) }
+	type path struct {
+		name string
+		run  func(in []byte, w io.Writer, c *model.Configuration) error
+	}
+	paths := []path{
+		{"write-noopt", func(in []byte, w io.Writer, c *model.Configuration) error {
+			ctx, err := api.ReadContext(rd(in), c)
+			if err != nil {
+				return err
+			}
+			if err := api.ValidateContext(ctx); err != nil {
+				return err
+			}
+			return api.WriteContext(ctx, w)
+		}},
+		{"optimize", func(in []byte, w io.Writer, c *model.Configuration) error { return api.Optimize(rd(in), w, c) }},
+	}
+	entries := []int{0, 3, 4, 6, 10, 11}
+	var docs []map[int]int
+	docs = append(docs, map[int]int{})                     // intact
+	docs = append(docs, map[int]int{3: 5, 4: 7, 6: 8})     // object 0 -> 3; 3, 4, 6 point at in-use objects
+	docs = append(docs, map[int]int{0: 5, 3: 7, 4: 8})     // the head itself is damaged
+	docs = append(docs, map[int]int{3: 3, 4: 3, 6: 40})    // self, cycle, beyond /Size
+	docs = append(docs, map[int]int{3: 12, 6: 12, 10: 12}) // missing object
+	for _, e := range entries {                            // every single fault of every kind (quick: a sample)
+		for kind := 0; kind < 5; kind++ {
+			if r.Thorough() || r.Rand.Intn(3) == 0 {
+				docs = append(docs, map[int]int{e: damageTarget(e, kind)})
+			}
+		}
+	}
+	for faults := 2; faults <= 3; faults++ {
+		for i := 0; i < r.Pick(10, 120); i++ {
+			d := map[int]int{}
+			for len(d) < faults {
+				e := entries[r.Rand.Intn(len(entries))]
+				d[e] = damageTarget(e, r.Rand.Intn(5))
+			}
+			docs = append(docs, d)
+		}
+	}
+	for di, links := range docs {
+		asStream := di%2 == 1
+		in, expect := rawDamaged(links, asStream)
+		variant := fmt.Sprintf("damaged-free-list-%d", len(links))
+		for pi, p := range paths {
+			for eolIdx := 0; eolIdx < 3; eolIdx++ {
+				for k := 0; k < 3; k++ {
+					// quick: the first five documents under every configuration, the others under a rotating third
+					if !r.Thorough() && di >= 5 && (di+pi+eolIdx+k)%3 != 0 {
+						continue
+					}
+					eol := eols[eolIdx]
+					c := conf(eol, k >= 1, k == 2)
+					var out bytes.Buffer
+					var err error
+					var panicked any
+					func() {
+						defer func() { panicked = recover() }()
+						err = p.run(in, &out, c)
+					}()
+					info := outInfo{Source: fmt.Sprintf("damaged(links=%v,xrefstream=%v)", links, asStream), Op: p.name, Eol: eolNames[eolIdx],
+						XRef: map[bool]string{true: "stream", false: "table"}[k >= 1], ObjStm: k == 2, Seed: r.Seed,
+						Variant: variant + ":" + p.name, InputHex: vh.Hex(in), Expect: expect}
+					r.Count("gen:" + variant + ":" + p.name)
+					if panicked != nil {
+						r.OracleFail("panic:"+variant+":"+p.name, info, fmt.Sprint(panicked))
+						continue
+					}
+					if err != nil {
+						r.Count("gen-op-error:" + variant + ":" + p.name)
+						continue
+					}
+					evaluate(info, out.Bytes(), eol, true, nil, -1, nil)
+				}
+			}
+		}
+	}
+}
+
+// EnsureValidFreeList against ensure_valid_free_list, exhaustively over small maps: free entries 1..n, an in-use
+// object n+1, a missing object n+2, a number beyond /Size; every combination of link values for the head and
+// the n entries. Go's map order makes the repair nondeterministic: compared is the well-formedness of the
+// result and the set of free entries (the model is proved well-formed for every order).
+func freeListUnits() {
+	maxN := r.Pick(4, 5)
+	run := func(n int, links []int, gens []int) {
+		size := n + 3
+		xt := &model.XRefTable{Table: map[int]*model.XRefTableEntry{}}
+		xt.Size = &size
+		hn := int64(links[0])
+		hg := 65535
+		xt.Table[0] = &model.XRefTableEntry{Free: true, Offset: &hn, Generation: &hg}
+		var fs []freeEnt
+		for k := 1; k <= n; k++ {
+			nx := int64(links[k])
+			g := gens[k]
+			xt.Table[k] = &model.XRefTableEntry{Free: true, Offset: &nx, Generation: &g}
+			fs = append(fs, freeEnt{k, links[k], gens[k]})
+		}
+		g0 := 0
+		xt.Table[n+1] = &model.XRefTableEntry{Generation: &g0, Object: types.Integer(1)}
+		res := "panic"
+		func() {
+			defer func() { recover() }()
+			if err := xt.EnsureValidFreeList(); err != nil {
+				res = "err"
+				return
+			}
+			var xe []xent
+			var nrs []string
+			for k := 0; k <= n; k++ {
+				e := xt.Table[k]
+				if e == nil || !e.Free || e.Offset == nil {
+					res = "broken"
+					return
+				}
+				xe = append(xe, xent{nr: k, typ: 0, a: int(*e.Offset), b: *e.Generation})
+				if k > 0 {
+					nrs = append(nrs, strconv.Itoa(k))
+				}
+			}
+			if e := xt.Table[n+1]; e.Free {
+				res = "broken"
+				return
+			}
+			if fl := freeListFindings(xe); len(fl) > 0 {
+				res = "broken"
+				r.OracleFail("free-list-broken:EnsureValidFreeList", map[string]any{"head": links[0], "free": fs, "inuse": n + 1}, strings.Join(fl, "; "))
+				return
+			}
+			r.OracleOK()
+			res = "ok:" + strings.Join(nrs, ",")
+		}()
+		r.Case("evfl", []string{vh.Int(int64(links[0])), freesArg(fs)}, res)
+	}
+	for n := 0; n <= maxN; n++ {
+		targets := []int{0}
+		for k := 1; k <= n+2; k++ {
+			targets = append(targets, k)
+		}
+		targets = append(targets, 99)
+		links := make([]int, n+1)
+		gens := make([]int, n+1)
+		for k := range gens {
+			gens[k] = 1
+		}
+		var rec func(i int)
+		rec = func(i int) {
+			if i > n {
+				run(n, links, gens)
+				if n <= 3 && n > 0 { // generation 65535 entries (dead when left dangling)
+					for mask := 1; mask < 1<<n; mask++ {
+						g2 := make([]int, n+1)
+						for k := 1; k <= n; k++ {
+							g2[k] = 1
+							if mask&(1<<(k-1)) != 0 {
+								g2[k] = 65535
+							}
+						}
+						run(n, links, g2)
+					}
+				}
+				return
+			}
+			for _, t := range targets {
+				links[i] = t
+				rec(i + 1)
+			}
+		}
+		rec(0)
+	}
+}
+
 func documents() {
 	repo := os.Getenv("VERIF_REPO")
 	if repo == "" {
@@ -1161,6 +1456,7 @@ func main() {
 	}
 	units()
 	undeleteUnits()
+	freeListUnits()
 	lap("units")
 	for i := 0; i < r.Pick(250, 3000); i++ {
 		synthetic(i)
@@ -1181,6 +1477,8 @@ func main() {
 	lap("generated")
 	sparse()
 	lap("sparse")
+	damagedFreeLists()
+	lap("damaged")
 	documents()
 	lap("documents")
 }
